@@ -5,8 +5,10 @@ import (
 	"crypto/tls"
 	"encoding/xml"
 	"fmt"
+	"strings"
 	"time"
 
+	saml2 "github.com/russellhaering/gosaml2"
 	"github.com/russellhaering/gosaml2/types"
 
 	"verifsim/core"
@@ -30,7 +32,7 @@ func init() {
 			"per cell: DecryptBytes over plaintext lengths 0..33 (all residues mod 16, zero-byte tails) must return the exact bytes, Decrypt must unmarshal, and the encrypted Response must behave as its plaintext twin (outcome, data, flags); distinct = shape hash (cell, length mode, placement, outcome)",
 		Directed:   c11Directed,
 		Run:        c11Run,
-		MustHit:    []string{"key=field", "key=tls", "key=setter", "key=both", "sp_restart", "detached", "inline", "pkcs1v15", "oaep_sha512", "cbc", "gcm", "zero_tail", "len_mod16=0", "twin"},
+		MustHit:    []string{"key=field", "key=tls", "key=setter", "key=both", "sp_restart", "detached", "inline", "pkcs1v15", "oaep_sha512", "cbc", "gcm", "zero_tail", "len_mod16=0", "twin", "key_rotation", "advertised_method_exercised"},
 		RandomRuns: map[string]int{"quick": 1200, "thorough": 8000},
 		Assumptions: []string{"encrypted layouts are exercised with signature checking on (with SkipSignatureValidation the library never decrypts; outside this property's quantifier)",
 			"OAEP / PKCS#1 v1.5 ciphertext bytes are not replayable in Go (hidden randomness) and are excluded from run digests"},
@@ -53,7 +55,7 @@ func c11Directed(tier string) [][]uint64 {
 								if tier == "quick" && (da+ka*2+dg+det+emb+ks*3+rs)%7 != 0 {
 									continue
 								}
-								out = append(out, []uint64{da, ka, dg, det, emb, ks, rs, 0})
+								out = append(out, []uint64{da, ka, dg, det, emb, ks, rs, 0, (da + ka + ks + rs) % 5})
 							}
 						}
 					}
@@ -78,6 +80,7 @@ func c11Run(r *core.Run) {
 	ksi := t.Int(4, "c11.keystyle")
 	restart := t.Bool("c11.restart")
 	lenMode := t.Int(40, "c11.lenmode") // 0 = sweep 0..33, else that length-1 (+ large)
+	rotate := t.Int(5, "c11.rotate")    // 0 none; key rotation on the live SP: 1 setter->setter 2 field->field 3 field->setter 4 setter->field-cleared
 	ks := c11KeyStyles[ksi]
 
 	s := NewStd(r)
@@ -176,6 +179,46 @@ func c11Run(r *core.Run) {
 	}
 	r.Logf("part A ok lengths=%d", len(lengths))
 
+	// ---- what the SP itself advertises in its metadata must round-trip too
+	if md, err := s.Node.SP.Metadata(); err == nil && md.SPSSODescriptor != nil {
+		for _, kd := range md.SPSSODescriptor.KeyDescriptors {
+			if kd.Use != "encryption" {
+				continue
+			}
+			for _, em := range kd.EncryptionMethods {
+				r.Probe("advertised_method_exercised")
+				if !(strings.Contains(em.Algorithm, "aes") || strings.Contains(em.Algorithm, "tripledes")) {
+					r.HarnessError("the SP advertises %q, which the stub encryptor does not implement", em.Algorithm)
+					return
+				}
+				ao := *o
+				ao.DataAlg = em.Algorithm
+				ao.Rand = t.SubRand("c11.randadv")
+				pt := []byte("<a>advertised method round trip \x00\x00</a>")
+				x, err := world.EncryptAssertion(&ao, pt)
+				if err != nil {
+					r.HarnessError("encrypt under advertised %s: %v", em.Algorithm, err)
+					return
+				}
+				ea := &types.EncryptedAssertion{}
+				if err := xml.Unmarshal([]byte(x), ea); err != nil {
+					r.HarnessError("unmarshal: %v", err)
+					return
+				}
+				var got []byte
+				out := world.Guard(func() error {
+					var e error
+					got, e = ea.DecryptBytes(tc)
+					return e
+				})
+				if out.Panic == "" && (!out.OK() || !bytes.Equal(got, pt)) {
+					r.Fail("advertised", "C11/advertised-method-does-not-round-trip/"+em.Algorithm, obs("algorithm", em.Algorithm, "err", fmt.Sprint(out.Err), "cell", cell))
+					return
+				}
+			}
+		}
+	}
+
 	// ---- part B: encrypted Response vs plaintext twin through the configured SP
 	r.Probe("twin")
 	now := s.Node.Now()
@@ -207,6 +250,53 @@ func c11Run(r *core.Run) {
 		}
 		r.Fault("sp_restart")
 	}
+	if rotate != 0 {
+		// key configuration history on one live SP: it first decrypts under another key (K0), then the
+		// application switches it to the key the IdP encrypts to
+		k0 := 6
+		c0 := world.MintCert(k0, s.Epoch.Add(-24*time.Hour), s.Epoch.Add(24*time.Hour), 4)
+		cfg0 := *s.Cfg
+		cfg0.EncKeyIdx, cfg0.EncCert = k0, c0
+		switch rotate {
+		case 1, 4:
+			cfg0.EncStyle = world.KeySetter
+		default:
+			cfg0.EncStyle = world.KeyField
+		}
+		n0, err := world.NewSPNode(&cfg0, r.Sim.Time)
+		if err != nil {
+			r.HarnessError("build rotating sp: %v", err)
+			return
+		}
+		// warm up under K0
+		m0 := world.GenResponse(t, s.IdP, s.Fed, now, 1, false)
+		m0.Sign = world.PlainSigOpts(s.IdPKey, s.IdPCert)
+		m0.Assertions[0].Encrypt = &world.EncOpts{DataAlg: o.DataAlg, KeyAlg: o.KeyAlg, Digest: o.Digest, Recipient: &world.Key(k0).RSA.PublicKey, Rand: t.SubRand("c11.rand0")}
+		x0, err := s.IdP.Issue(m0, lay, r.Sim.Now())
+		if err != nil {
+			r.HarnessError("issue warm-up: %v", err)
+			return
+		}
+		_, w := n0.ValidateResponse(world.Present(x0, false, 0))
+		r.Logf("rotation warm-up under the previous key -> %s", w.Class())
+		// the switch
+		spk := world.Key(spKey)
+		switch rotate {
+		case 1, 3:
+			if err := n0.SP.SetSPKeyStore(&saml2.KeyStore{Signer: spk.Signer, Cert: spCert.DER}); err != nil {
+				r.HarnessError("SetSPKeyStore: %v", err)
+				return
+			}
+		case 2:
+			n0.SP.SPKeyStore = &world.FieldKeyStore{Key: spk.RSA, Cert: spCert.DER}
+		case 4:
+			n0.SP.SetSPKeyStore(nil)
+			n0.SP.SPKeyStore = &world.FieldKeyStore{Key: spk.RSA, Cert: spCert.DER}
+		}
+		s.Node = n0
+		r.Fault("sp_key_rotation")
+		r.Probe("key_rotation")
+	}
 	rp, op := s.Node.ValidateResponse(world.Present(plainXML, false, 0))
 	re, oe := s.Node.ValidateResponse(world.Present(encXML, t.Bool("c11.compress"), 6))
 	r.Steps += 2
@@ -216,13 +306,13 @@ func c11Run(r *core.Run) {
 	if op.Panic != "" || oe.Panic != "" {
 		return
 	}
-	ctx := obs("cell", cell, "key_config", ks.String(), "restart", restart, "place", placeNames[place], "n", n, "plain_err", fmt.Sprint(op.Err), "encrypted_err", fmt.Sprint(oe.Err))
+	ctx := obs("rotation", rotate, "cell", cell, "key_config", ks.String(), "restart", restart, "place", placeNames[place], "n", n, "plain_err", fmt.Sprint(op.Err), "encrypted_err", fmt.Sprint(oe.Err))
 	if !op.OK() {
 		r.Fail("twin", "C11/plain-twin-rejected", ctx)
 		return
 	}
 	if !oe.OK() {
-		r.Fail("twin", "C11/twin-differs/encrypted-rejected/key="+ks.String(), ctx)
+		r.Fail("twin", fmt.Sprintf("C11/twin-differs/encrypted-rejected/key=%s/rotation=%d", ks, rotate), ctx)
 		return
 	}
 	if !world.EqualResponse(world.NormResponse(rp), world.NormResponse(re)) {
